@@ -141,6 +141,9 @@ def write_graph(molecule, smiles_format=False, default_element='*', name_attr='f
         if current in atom_to_ring_idx:
             # We're going to need to write a ring number
             ring_idxs = atom_to_ring_idx[current]
+            # a digit directly behind a multi digit marker would be read
+            # as part of that marker, so it is written in the % form too
+            after_multi_digit = False
             for ring_idx in ring_idxs:
                 ring_bond = ring_idx_to_bond[ring_idx]
                 if ring_idx not in ring_idx_to_marker:
@@ -154,8 +157,13 @@ def write_graph(molecule, smiles_format=False, default_element='*', name_attr='f
                 if _write_edge_symbol(molecule, *ring_bond) and new_marker:
                     order = molecule.edges[ring_bond].get('order', 1)
                     smiles += order_to_symbol[order]
+                    after_multi_digit = False
 
-                smiles += str(marker) if marker < 10 else '%{}'.format(marker)
+                if marker < 10 and not after_multi_digit:
+                    smiles += str(marker)
+                else:
+                    smiles += '%{:02d}'.format(marker)
+                    after_multi_digit = True
 
         if current in dfs_successors:
             # Proceed to the next node in this branch
